@@ -43,6 +43,11 @@ var c27groups = []c27group{
 	{"attr-through-outside-subclass", "class Alpha\n  attr_reader :label\n  attr_accessor :count\n\n  def initialize(v)\n    @label = \"s\"\n    @count = v\n  end\nend\nclass Beta < Alpha\nend\n",
 		[]string{"class Leafq < %Q%Beta; end", "lf = Leafq.new(1)", "dbtp lf.label", "dbtp lf.count", "lf.label + 1", "lf.nope", "b = %Q%Beta.new(2)", "dbtp b.label"},
 		"class Origin\n  attr_reader :label\n\n  def initialize(v)\n    @label = 1\n  end\nend\nclass Beta < Origin\nend\n"},
+	// receiver-less and class-method calls with parameters; the decoy has same-named methods and parameters with
+	// other defaults and argument types
+	{"parameter-slots", "class Alpha\n  def tag(v)\n    v\n  end\n\n  def use\n    tag(\"s\")\n  end\n\n  def self.count(v)\n    v\n  end\nend\n",
+		[]string{"a = %Q%Alpha.new", "dbtp a.use", "dbtp %Q%Alpha.count(\"s\")", "dbtp a.tag(\"t\")", "a.tag", "%Q%Alpha.count"},
+		"class Alpha\n  def tag(v = 1)\n    v\n  end\n\n  def use\n    tag\n  end\n\n  def self.count(v = 1)\n    v\n  end\nend\n"},
 	{"classmethod-chain", "class Alpha\n  def self.build\n    Beta.new\n  end\nend\nclass Beta\n  def run\n    \"s\"\n  end\nend\n",
 		[]string{"r = %Q%Alpha.build", "dbtp r.run", "r.nope", "%Q%Beta.build"},
 		"class Beta\n  def run\n    1\n  end\n\n  def self.build\n    1\n  end\nend\n"},
